@@ -6,9 +6,10 @@
   Model: Sem/AliasC04.lean on the heap of Sem/Alias.lean.  Table: Generated/AliasingC04.lean,
   regenerated from the working tree on every run (AST idioms of collections_impl.py /
   structures.py + a witness probe on real instances); `tables_accessors_safe` and
-  `tables_ctor_no_retention` are re-proved by `decide` each run.  Known finding, kernel-checked:
-  `reversed(x.m)` on a Map value is not overridden by `_DictStruct` and hands out the stored key
-  objects (`raw_accessor_leaks`, row ("dict", "__reversed__")).
+  `tables_ctor_no_retention` are re-proved by `decide` each run.  The table found one raw row on
+  /repo 58bf716 — `reversed(x.m)` on a Map value was not overridden by `_DictStruct` and handed out
+  the stored key objects (repaired in 330c788, `fixed_dict_reversed_today`); `raw_accessor_leaks`
+  is the kernel-checked reason why a raw row breaks the property.
 -/
 import TypedpyModel.Lemmas.AliasC04
 import TypedpyModel.Generated.AliasingC04
@@ -152,8 +153,14 @@ theorem ctor_then_reads_frozen (fuel : Nat) (h : Heap) (args : List (String × I
 
 /-! ### the regenerated tables -/
 
-/-- rows that are known to be raw today (the open finding) -/
-def knownRawRows : List (String × String) := [("dict", "__reversed__")]
+/-- rows that are known to be raw today: none (the one open finding, ("dict", "__reversed__"), was
+    repaired in /repo 330c788; `raw_accessor_leaks` below keeps the reason why a raw row is a leak) -/
+def knownRawRows : List (String × String) := []
+
+/-- fixed in /repo 330c788: `reversed(x.m)` hands out copies of the keys -/
+theorem fixed_dict_reversed_today :
+    (Generated.accessorRowsC04.filter (fun r => r.wrapper == "dict" && r.accessor == "__reversed__")).all
+      (fun r => r.mode.safe && r.overridden && r.astMode.safe) = true := by decide
 
 /-- members of the pickle protocol an overriding wrapper assembles from `super().__reduce__()` and
     `__getstate__()` (no copy idiom of its own; covered by the witness probe) -/
